@@ -10,6 +10,8 @@ package main
 import (
 	"fmt"
 	"strings"
+
+	"go.pennock.tech/tabular/texttable/decoration"
 )
 
 type lifeCell struct {
@@ -298,4 +300,55 @@ func init() {
 	streams["L09"] = lifeStream("C09", "text", alphaText, true)
 	streams["L14"] = lifeStream("C14", "text", alphaText, false)
 	streams["L15"] = lifeStream("C15", "csv", alphaPlain, false)
+}
+
+// ---------- hostile stream: inputs OUTSIDE the properties' stated domains ----------
+// (invalid / non-alignment values, partial decorations incl. on zero-column tables, the same row
+// attached twice, headers replaced by shorter ones).  No oracle: at these points the library may
+// panic or mis-render; what is checked is that the MODEL says exactly what the code does there,
+// so that the hypotheses of the theorems are the only place where model and properties part.
+func init() {
+	streams["H09"] = stream{
+		property:  "C09",
+		oracleDoc: "no oracle: correspondence only, at inputs the theorems exclude (invalid alignment values, partial decorations, double attach)",
+		run: func(g *Gen, c int) ([]string, []string, bool) {
+			r := g.r
+			o := tableOpts{alpha: alphaPlain, parts: 2, maxCols: 3, maxRows: 4, postAdd: true}
+			t := g.buildTable(o)
+			ti := idOf(t)
+			n := g.ncols(t)
+			for i := 0; i < 1+r.n(2); i++ {
+				g.do(fmt.Sprintf("setprop c:%d:%d align %s", ti, r.n(n+1), r.pick([]string{"a99999", "u5", "b1", "a1", "a3"})))
+			}
+			if r.chance(1, 3) {
+				g.do(fmt.Sprintf("setprop c:%d:%d skip %s", ti, r.n(n+1), r.pick([]string{"u5", "a1"})))
+			}
+			if r.chance(1, 3) {
+				rows := g.x.tables[ti].AllRows()
+				if len(rows) > 0 { // the same row attached a second time
+					g.do(fmt.Sprintf("addrow %s R%d", t, g.x.rowID[rows[r.n(len(rows))]]))
+				}
+			}
+			if r.chance(1, 3) {
+				g.do("addheaders " + t + " " + g.strItem("short"))
+			}
+			for _, k := range []string{"markdown", "json", "csv"} {
+				g.do("render " + g.do("wrap "+k+" "+t))
+			}
+			w := g.do("wrap text " + t)
+			g.do("render " + w)
+			// a partial decoration, NOT completed by Populate
+			var d decoration.Decoration
+			fs := decorFields(&d)
+			for i := range fs {
+				if r.chance(1, 4) {
+					*fs[i] = r.pick([]string{"|", "-", "+", "#"})
+				}
+			}
+			g.do("setdecor " + w + " " + showDecor(d))
+			g.do("render " + w)
+			g.do("obs " + t)
+			return nil, nil, true
+		},
+	}
 }
